@@ -94,6 +94,11 @@ func ReadBlockSummaries(fileName string,
 	for offset < fileSize {
 
 		// todo kunal do we need blksumlen ?
+		if fileSize-offset < 4 {
+			log.Errorf("ReadBlockSummaries: expected at least 4 more bytes for block summary length, got %d more bytes; file=%v, offset=%d",
+				fileSize-offset, fileName, offset)
+			return blockSummaries, allBmi, errors.New("bad data")
+		}
 		offset += 4 // for blkSumLen
 
 		if len(rbuf[offset:]) < 2+8+8+2+2 {
@@ -248,6 +253,11 @@ func ReadMetricsBlockSummaries(fileName string) ([]*structs.MBlockSummary, error
 	}
 	offset := int64(1)
 	for offset < fileSize {
+		if fileSize-offset < 2+8+8 {
+			log.Errorf("ReadMetricsBlockSummaries: expected at least %d more bytes for a block summary, got %d more bytes; file=%v, offset=%d",
+				2+8+8, fileSize-offset, fileName, offset)
+			return mBlockSummaries, errors.New("bad data")
+		}
 		blkNum := utils.BytesToUint16LittleEndian(data[offset:])
 		offset += 2
 
